@@ -675,6 +675,28 @@ func codecs(c *vm.Ctx, r *vm.Rand, G, rounds int) {
 					atomic.StoreInt32(&bad, 1)
 					return
 				}
+				// the same type again from a document whose names differ in letter case: the decoder's
+				// case-insensitive fallback consults the per-type table shared by all goroutines
+				m := map[string]any{}
+				for j := 0; j < t.NumField(); j++ {
+					name := []byte(t.Field(j).Tag.Get("nbt"))
+					for k := range name {
+						if name[k] >= 'a' && name[k] <= 'z' && lr.Bool() {
+							name[k] -= 'a' - 'A'
+						}
+					}
+					m[string(name)] = v.Field(j).Interface()
+				}
+				mb, err := nbt.Marshal(m)
+				out2 := reflect.New(t)
+				if err == nil {
+					err = nbt.Unmarshal(mb, out2.Interface())
+				}
+				if err != nil || !reflect.DeepEqual(out2.Elem().Interface(), v.Interface()) {
+					c.Violation("codecs/cross-talk/typed-cache-case-folded-names", fmt.Sprintf("goroutine %d seq %d type %d: err=%v", g, seq, (g+seq)%ntypes, err), nil)
+					atomic.StoreInt32(&bad, 1)
+					return
+				}
 				// delayed re-verification: retained pooled memory only shows later
 				if len(keep) > 24 {
 					k := keep[0]
@@ -700,6 +722,7 @@ func codecs(c *vm.Ctx, r *vm.Rand, G, rounds int) {
 	c.EvalN(int64(G*rounds*3), vm.HashStr("codecs", fmt.Sprint(G, rounds, r.Uint64())), true)
 	if atomic.LoadInt32(&bad) == 0 {
 		c.Cover("codecs.isolated")
+		c.Cover("codecs.case-folded-names")
 	}
 }
 
